@@ -43,6 +43,9 @@ checks = {
  "C18": dict(design="4/C18", engine="tlc-mw", technique="TLC enumeration of the Mw.tla case table (rule placement x body access / limit actions x request size vs limit x announced/chunked length x handler scripts; invariants BlockedNeverReachesHandler, BlockedResponseLeaksNothing, PassThroughIsIdentity) replayed against a real net/http server wrapped by the middleware",
    text="What the wrapped handler and the client may observe is a TLA+ function of the case (Mw.tla); TLC enumerates all cases and checks the three C18 statements on it; each case runs against a real httptest server wrapped by http.WrapHandler built from /repo with a scripted handler (reads, WriteHeader, chunked writes, ReadFrom, Flush, 204/304/201/404/500) and the handler-invoked flag, bytes read by the handler, client status, pass-through header and client body bytes are compared.",
    note="Trusts TLC, net/http/httptest and the scripted handler. Only deny is asserted for blocked statuses; a handler that never starts a response is left open; 1xx informational responses are not generated."),
+ "C13": dict(design="4/C13", engine="tlc-memo", technique="TLC model checking of Memo.tla (key derivation and stored artefact per call site; invariant CacheInvisible over all build/close histories of WAFs whose configurations reuse one string in different roles) + replay of every history in one process of a probe program built from /repo, compared with each configuration built alone in a fresh process and with a -tags coraza.no_memoize build; self-test that the text-only key design violates CacheInvisible in TLC",
+   text="Which bytes of a configuration become the cache key and which artefact is stored is modelled per call site; TLC checks that every lookup returns the artefact the caller would have built itself over all histories of building and closing WAFs from a pool of colliding configurations; every history is replayed in one OS process (shared cache) and each WAF's construction result and probe outcomes are compared with the same configuration alone in a fresh process and with the cache compiled out.",
+   note="Trusts TLC and the probe program (cmd/c13probe). The configuration pool is the one of Memo.tla (11 configurations); concurrency of the cache is C06."),
 }
 
 not_built_reason = "check under construction in this session (see DESIGN.md section 4); not claimed until its machinery is committed"
@@ -63,6 +66,7 @@ manifest = {
    {"name":"tlc-fsfault","path":"spec/FsFault.tla","serves_properties":["C20"],"kind_free_text":"TLA+ model of the file-system life of a transaction with fault injection"},
    {"name":"tlc-audit","path":"spec/Audit.tla","serves_properties":["C19"],"kind_free_text":"TLA+ decision table of audit / error logging"},
    {"name":"tlc-mw","path":"spec/Mw.tla","serves_properties":["C18"],"kind_free_text":"TLA+ case table of the net/http middleware"},
+   {"name":"tlc-memo","path":"spec/Memo.tla, spec/MemoConc.tla","serves_properties":["C13","C06"],"kind_free_text":"TLA+ models of the process-wide pattern cache: sequential key/artefact model and concurrent Do/Release protocol"},
    {"name":"tlc-engine","path":"spec/Engine.tla, spec/Scen.tla, spec/Engine_MC.tla, spec/Engine_Trace.tla","serves_properties":["C01","C04","C08","C09","C12","C17"],"kind_free_text":"TLA+ specification of the rule interpreter; TLC enumerates scenarios + allowed outcomes (spec->code replay) and validates recorded executions (code->spec)"},
  ],
  "checks": [],
